@@ -455,7 +455,7 @@ class Calibrator(BaseSeedable):
                         self.n_sampled_params,
                         self.convergence_precision,
                     )
-                    if converged and self.verbose:
+                    if converged:
                         print("\nCONVERGENCE CHECK:")
                         print("Achieved convergence loss, stopping search.")
                         break
